@@ -30,6 +30,10 @@
 #include <signal.h>
 #include <sys/prctl.h>
 
+#ifdef VF_COV
+extern "C" void __gcov_dump(void);
+#endif
+
 namespace vf {
 
 // ---------------------------------------------------------------- PRNG
@@ -274,6 +278,9 @@ inline int harness_main(int argc, char** argv, const std::vector<Section>& secti
     write_progress(UINT64_MAX);
     flush_part("end", sigp);
     fflush(stdout); fflush(stderr);
+#ifdef VF_COV
+    __gcov_dump();        // coverage build (tools/anchor_coverage.py): _exit would lose the counters
+#endif
     _exit(0);   // never run static destructors: cpputest touches destroyed allocators there (outside every property)
 }
 
